@@ -137,9 +137,13 @@ def _wrap(name, fn, mutating, has_self=True):
         # outermost monitored frame
         S.steps = 0
         recv = args[0] if (has_self and args) else None
-        ops = _operands(args[1:] if has_self else args, kwargs)
-        pre_recv = _snap(recv) if recv is not None else None
-        pre_ops = [(o, _snap(o)) for o in ops]
+        try:
+            ops = _operands(args[1:] if has_self else args, kwargs)
+            pre_recv = _snap(recv) if recv is not None else None
+            pre_ops = [(o, _snap(o)) for o in ops]
+        except Exception as e:  # the monitor must never change behaviour
+            S.violations.append({"monitor": "M1", "kind": "monitor-error", "op": name, "detail": "pre-snapshot: " + repr(e)})
+            recv, pre_recv, pre_ops = None, None, []
         S.depth += 1
         outcome = "ok"
         try:
